@@ -36,6 +36,22 @@ def counts(out):
     return p, f
 
 
+FEATURE_SETS = {
+    "C16": [["--features", "serde"]],
+    "C17": [[], ["--no-default-features"], ["--no-default-features", "--features", "package-type"]],
+}
+
+
+def demo_runs(repo, prop):
+    """Run the demo under every feature set relevant for the property: [(flags, rc, passed, failed)]."""
+    res = []
+    for flags in FEATURE_SETS.get(prop, [[]]):
+        rc, out = sh(["cargo", "test", "-p", "purl", "--test", "demo", "--offline", "--no-fail-fast"] + flags, cwd=repo)
+        p, f = counts(out)
+        res.append((" ".join(flags) or "default", rc, p, f))
+    return res
+
+
 def main():
     prop, src = sys.argv[1], sys.argv[2]
     tag = sys.argv[3] if len(sys.argv) > 3 else prop
@@ -54,10 +70,10 @@ def main():
             shutil.rmtree(os.path.join(repo, "purl", "tests"), ignore_errors=True)
             os.makedirs(os.path.join(repo, "purl", "tests"))
             shutil.copy(demo, os.path.join(repo, "purl", "tests", "demo.rs"))
-            rc, out = sh(["cargo", "test", "-p", "purl", "--test", "demo", "--offline"], cwd=repo)
-            p0, f0 = counts(out)
-            if rc != 0 or f0 != 0 or p0 == 0:
-                print("%s REJECTED: demo does not pass on the pristine tree (%d passed, %d failed)" % (name, p0, f0))
+            r0 = demo_runs(repo, prop)
+            p0 = sum(x[2] for x in r0)
+            if any(x[1] != 0 or x[3] != 0 for x in r0) or p0 == 0:
+                print("%s REJECTED: demo does not pass on the pristine tree: %s" % (name, r0))
                 continue
             rc, out = sh(["git", "apply", diff], cwd=repo)
             if rc != 0:
@@ -71,10 +87,10 @@ def main():
                 print("%s REJECTED: existing suite with the change: rc=%d passed=%d failed=%d" % (name, rc, p1, f1))
                 continue
             os.rename(os.path.join(scratch, "demo.rs"), os.path.join(repo, "purl", "tests", "demo.rs"))
-            rc, out = sh(["cargo", "test", "-p", "purl", "--test", "demo", "--offline", "--no-fail-fast"], cwd=repo)
-            p2, f2 = counts(out)
-            if rc == 0 or f2 == 0:
-                print("%s REJECTED: demo does not fail with the change (passed=%d failed=%d)" % (name, p2, f2))
+            r2 = demo_runs(repo, prop)
+            p2, f2 = sum(x[2] for x in r2), sum(x[3] for x in r2)
+            if f2 == 0:
+                print("%s REJECTED: demo does not fail with the change: %s" % (name, r2))
                 continue
             dst = os.path.join(VERIF, "seeded", name)
             os.makedirs(dst, exist_ok=True)
@@ -90,6 +106,8 @@ def main():
                 "needs_to_manifest": needs[:1500],
                 "confirmed": {
                     "demo_on_pristine": "%d passed, 0 failed" % p0,
+                    "demo_feature_sets": [x[0] for x in r0],
+                    "demo_with_change_per_feature_set": ["%s: %d passed, %d failed" % (x[0], x[2], x[3]) for x in r2],
                     "existing_suite_with_change": "%d passed, 0 failed (cargo test --workspace --no-fail-fast --offline)" % p1,
                     "demo_with_change": "%d passed, %d failed" % (p2, f2),
                 },
